@@ -180,3 +180,47 @@ pub fn reset_rule_for(m: &Model, ctx: &mut Ctx, rule: &str, field: &str, backend
         ctx.violate(rule, "reset:source-is-own-header", &f.file, line, "generate_module must take the defaults from the header attached to the module's own definitions");
     }
 }
+
+/// the string literals of an array expression (`["a", "b"]`), None if it is anything else
+pub fn str_array(e: &syn::Expr) -> Option<Vec<String>> {
+    if let syn::Expr::Array(a) = e {
+        let mut v = vec![];
+        for x in a.elems.iter() {
+            if let syn::Expr::Lit(l) = x {
+                if let syn::Lit::Str(s) = &l.lit {
+                    v.push(s.value());
+                    continue;
+                }
+            }
+            return None;
+        }
+        return Some(v);
+    }
+    None
+}
+
+
+/// A method whose whole body hands on to another method of the same type (`self.inner(a, b, &mut extra)`) is a wrapper:
+/// rules that look at "the" traversal follow it to the method that does the work.
+pub fn through_wrapper<'a>(m: &'a Model, f: &'a crate::model::FnInfo) -> &'a crate::model::FnInfo {
+    let mut cur = f;
+    for _ in 0..3 {
+        if cur.block.stmts.len() != 1 {
+            return cur;
+        }
+        let e = match &cur.block.stmts[0] {
+            syn::Stmt::Expr(e, _) => e,
+            _ => return cur,
+        };
+        let syn::Expr::MethodCall(mc) = e else { return cur };
+        if crate::model::tok(&mc.receiver) != "self" {
+            return cur;
+        }
+        let name = mc.method.to_string();
+        match m.fns.iter().find(|g| g.name == name && g.self_ty == cur.self_ty && g.krate == cur.krate) {
+            Some(g) => cur = g,
+            None => return cur,
+        }
+    }
+    cur
+}
